@@ -704,6 +704,10 @@ def evaluate_payload_template(input, context, template):
             v = k
 
         if v_is_path_or_intrinsic:
+            if not isinstance(v, str):
+                raise IntrinsicFailure(
+                    "The value of {}.$ must be a Path or an Intrinsic Function".format(k)
+                )
             if v == "$":  # It's a path representing the root node
                 v = clone(input)  # clone to avoid potential circular reference
             elif v.startswith("$"):  # It's a path
